@@ -416,6 +416,7 @@ def execute(case, stats):
         groups.append(o)
     dso = G.nid()
     G.ds[dso] = {"m": {}, "real": osy.Dataset()}
+    G.ds[dso]["real"].meta["time"] = 1.5  # (filled in place, the way a loader fills it)
 
     def V(step, op, clause, detail):
         viol.append({"class": "aliasing-contract", "clause": clause, "key": {"op": op["op"], "clause": clause}, "detail": dict(detail, step=step, op=op)})
@@ -552,6 +553,14 @@ def execute(case, stats):
                         for name in d["m"]:
                             if getattr(d["real"][name], "parent", None) is d["real"] and getattr(new[name], "parent", None) is d["real"]:
                                 V(step, op, "deepcopy-reaches-original", {"group": name, "via": "parent"})
+                        # ... nor through the metadata: entries written on one side do not show on the other
+                        mark = f"mark{step}"
+                        new.meta[mark] = 1
+                        d["real"].meta["orig" + mark] = 2
+                        if new.meta is d["real"].meta or mark in d["real"].meta or ("orig" + mark) in new.meta or new.meta.get("time") != 1.5:
+                            V(step, op, "deepcopy-reaches-original", {"via": "meta", "same_dict": new.meta is d["real"].meta})
+                        d["real"].meta.pop("orig" + mark, None)
+                        stats.inc("probe.dataset_deepcopy_meta_independence")
                         memo, gmemo = {}, {}
                         for name, go in d["m"].items():
                             if go not in gmemo:
